@@ -1,5 +1,6 @@
 mod chain;
 mod classify;
+mod conc;
 mod life;
 mod replay;
 mod universe;
@@ -25,6 +26,7 @@ fn main() {
             let mut lock = stdin.lock();
             replay::run_replay(&mut lock, out, &opts)
         }
+        Some("conc") => conc::run_conc(args.get(2).expect("spec"), args.get(3).expect("trace"), args.get(4).expect("summary")),
         Some("life") => {
             let flag = |name: &str| args.iter().position(|a| a == name).and_then(|i| args.get(i + 1)).cloned();
             life::run_life(
